@@ -99,6 +99,6 @@ package ds
 // The document handed to encoding/json has exactly the members start and end.
 //@ func (Range).MarshalJSON [C17]
 //@   nopanic
-//@   atcall Marshal members: arg0 is map[string]int && (forall k Str :: { has(result, k) } has(result, k) == (k == "start" || k == "end"))
-//@   atcall Marshal values: (arg0 as map[string]int) == result && result["start"] == r.Start && result["end"] == r.End
+//@   atcall Marshal members: arg0 is map[string]int && (forall k Str :: { has(arg0 as map[string]int, k) } has(arg0 as map[string]int, k) == (k == "start" || k == "end"))
+//@   atcall Marshal values: (arg0 as map[string]int)["start"] == r.Start && (arg0 as map[string]int)["end"] == r.End
 //@   ensures result.1 == nil
